@@ -4,7 +4,7 @@ from .c05 import rand_tree
 from .c09 import classify_tree, small_trees
 
 VALUE_OPS = ["splitUniform", "splitNonUniform", "splitEqual", "splitUnEqual", "fiberSplitUniform", "truediv", "floordiv", "swizzle", "swap", "flatten", "fiberFlatten",
-             "merge", "updateCoords", "updatePayloads", "add", "mul", "addscalar", "mulscalar", "copy", "deepcopy", "fiberDeepcopy", "fromFiberOwned", "swizzlePartial", "unflatten", "fiberUnflatten"]
+             "merge", "updateCoords", "updatePayloads", "add", "mul", "addscalar", "mulscalar", "copy", "deepcopy", "fiberDeepcopy", "fromFiberOwned", "swizzlePartial", "unflatten", "fiberUnflatten", "rawDeepcopy", "rawCopy"]
 OBSERVERS = ["getPayload", "iterate", "coiterate", "compare", "queries", "print", "dump", "uncompress", "footprint", "renderTree", "renderUncompressed", "renderTensor", "renderTreeHL", "renderUncompressedHL", "renderTensorHL"]
 
 
@@ -49,6 +49,11 @@ def run(ctx):
                 cases.append({"kind": "observer", "op": op, "tree": t, "tree2": t2, "depth": depth, "ufmt": rng.randint(0, 3)})
             if depth >= 2 and t["e"] and op in FLAT_OBSERVERS and classify_tree(t) != "ghost" and rng.random() < 0.5:
                 cases.append({"kind": "observer", "op": op, "tree": t, "tree2": t2, "depth": depth, "flat": rng.choice(["tuple", "pair"])})
+    # copies of raw fibers that hold nothing (depth 1 and 2)
+    for op in ("rawDeepcopy", "rawCopy"):
+        for depth in (1, 2):
+            cases.append({"kind": "value", "op": op, "tree": {"k": "F", "e": []}, "tree2": {"k": "F", "e": []}, "depth": depth, "d": 0, "step": 1, "style": "tuple", "fdflt": 0})
+            cases.append({"kind": "value", "op": op, "tree": {"k": "F", "e": []}, "tree2": {"k": "F", "e": []}, "depth": depth, "d": 0, "step": 1, "style": "tuple", "fdflt": 0.5})
     part = family.run_family(ctx, "C10", cases, "harness.exec_alias", "AliasTrace.tla", "AliasTrace.cfg",
                              op_of=lambda c, lg, st: c["op"], where_of=lambda c, lg, st: c["kind"] + ":" + classify_tree(c["tree"]) + f":depth{c['depth']}",
                              nontrivial=lambda c, lg: bool(c["tree"]["e"]))
